@@ -5,7 +5,7 @@
     common_isotopes tables in the .pyx sources), unpack_sym (entry of the element list of the decoder), mass_nat (1 iff the natural
     atomic mass is computable), mass_iso (per tabulated isotope 1 iff its mass is computable), qz / qsym (number of the query
     variant by number / by symbol), dz / dsym (the same for the dynamic variant), qname / dname (the symbols the variants report), rules (1 iff the valence tables compile),
-    nrules (number of compiled rules)] *)
+    nrules (number of compiled rules), qch / ech (the charges of -4..4 the query variant / the element accepts)] *)
 EXTENDS Valence, SmilesRead
 CONSTANT CH
 R == JsonDeserialize("data.json")
@@ -25,9 +25,16 @@ Verdict(r) ==
   \cup If(\E x \in SeqSet(r.dist) \cup SeqSet(r.mass) : (x - r.mdl) \notin -8..8, "isotope-not-representable-in-the-matcher-layout")
   \cup If(r.qz # r.z \/ r.qsym # r.z, "query-variant")
   \cup If(r.dz # r.z \/ r.dsym # r.z, "dynamic-variant")
+  \cup If(SeqSet(r.qch) # -4..4, "query-variant-rejects-a-charge-of-the-range")
+  \cup If(SeqSet(r.ech) # -4..4, "element-rejects-a-charge-of-the-range")
   \cup If(r.qname # Symbols[r.z], "query-variant-symbol")
   \cup If(r.dname # Symbols[r.z], "dynamic-variant-symbol")
   \cup If(r.rules # 1 \/ r.nrules # Len(Rules[r.z]), "valence-tables-do-not-compile-to-the-documented-rules")
+  \* what the valence tables can give an atom must fit the two layouts: hydrogens 0..6 and charges -4..+4 in the pack format,
+  \* hydrogens 0..4 (five bits, the next bit is the first charge bit) and charges -4..+4 in the matcher's third word
+  \cup If(\E k \in 1..Len(Rules[r.z]) : Rules[r.z][k].h \notin 0..6, "hydrogen-count-not-representable-in-the-pack-format")
+  \cup If(\E k \in 1..Len(Rules[r.z]) : Rules[r.z][k].h \notin 0..4, "hydrogen-count-not-representable-in-the-matcher-layout")
+  \cup If(\E k \in 1..Len(Rules[r.z]) : Rules[r.z][k].c \notin -4..4, "charge-not-representable")
 Init == c \in 0..(CH-1) /\ i = c + 1
 Next == i + CH <= N /\ i' = i + CH /\ c' = c
 Report == i > N \/ Verdict(R[i]) = {} \/ PrintT(<<"VERDICT", i, Verdict(R[i])>>)
